@@ -465,6 +465,31 @@ func runC03(w *World, tr *Trace) {
 		applied = len(gotKV) + len(gotVec)
 		e.Close()
 		settle()
+		// the repair recovery made to the file (truncating a torn tail, ...) must not cost intact commands:
+		// a second recovery of the same directory gives the same keys and vectors
+		if !w.Failed() {
+			e2, err := engine.Open(opts)
+			if err != nil {
+				w.Fail("intact_commands_applied", "second_open_refused", fmt.Sprintf("the directory recovery had just repaired cannot be opened again: %v; %s", err, desc()), -1)
+			} else {
+				settle()
+				for _, k := range sortedKeys(gotKV) {
+					if v, ok := e2.KVGet(k); !ok || string(v) != gotKV[k] {
+						w.Fail("intact_commands_applied", "kv_lost_by_repair", fmt.Sprintf("key %q=%q was recovered by the first Open and is %q (present=%v) after the second; %s", k, gotKV[k], v, ok, desc()), -1)
+						break
+					}
+				}
+				for _, id := range sortedKeys(gotVec) {
+					if _, err := e2.VGet("ix", id); err != nil {
+						w.Fail("intact_commands_applied", "vector_lost_by_repair", fmt.Sprintf("vector %s was recovered by the first Open and is gone after the second (%v); %s", id, err, desc()), -1)
+						break
+					}
+				}
+				w.Probe("second_recovery_compared")
+				e2.Close()
+				settle()
+			}
+		}
 		w.Res.SimNS = int64(time.Since(w.Start))
 	})
 	if p != nil {
